@@ -112,6 +112,8 @@ def bounded_transport(tier, seed):
     defaults = [None, {}, {"A": "d", "Authorization": "default", "X-Key": "dk"}]
     bearers = [None, "bt"]
     kwargss = [{}, {"headers": {"A": "r", "B": "2"}}, {"params": {"q": "1"}, "json": {"x": 1}}, {"headers": {"Authorization": "req"}, "cookies": {"c0": "v"}, "data": "raw"},
+               # the caller's own params / cookies spelled like a plugin's key name up to letter case (query and cookie names are case sensitive: they stay)
+               {"params": {"API_KEY": "caller", "Api_Key": "c2", "q": "1"}, "cookies": {"SID": "caller", "Sid": "c2"}, "headers": {"x-key": "lower"}},
                {"headers": {"X-Int": 7, "X-Zero": 0, "X-Flag": False, "X-Yes": True, "X-List": ["a", "b"], "X-Nums": [1, 2], "X-Text": "7"}}]
     statuses = [200, 204] if tier == "quick" else [200, 201, 204, 299]
     n = 0
